@@ -204,6 +204,11 @@ def near_miss_strings(m, rnd, limit_names=16):
     alphabet = "aA_0 *\"\\{}é"
     for s in pick:
         out.add(s)
+        if len(s) > 4096:
+            # a padded name (total length on a 2^16 boundary): the name, one shorter, one longer, one substitution
+            pos = rnd.randrange(len(s))
+            out.update([s[:-1], s + "_", s[:pos] + "~" + s[pos + 1:]])
+            continue
         out.add(s.swapcase())
         out.add(s.upper())
         out.add(s.lower())
